@@ -239,3 +239,16 @@ PROPS['C18'] = dict(
          'without NULLs and empty tables. Non-trivial: ok with >= 1 row; distinct by SQL text.',
     trusted_base=['models Mkdb/Model/Exec.lean'],
 )
+
+STORE_FACTS = ['skeleton.storage.*', 'panics.storage.*', 'skeleton.engine.Evaluate*', 'storage.callers.*', 'storage.file_writers',
+               'layout.WALEntry.*', 'layout.fileStore.*'] + STORAGE_CONSTS
+PROPS['C01'] = dict(lean=['Mkdb.Props.C01'], facts=STORE_FACTS, runs=[dict(cmd='db', proto='db', args=['c01'])],
+    sig_filter=r'db:(contents-differ:live|schema-differs:live|row-ids-not-increasing:live|row-id:live|panic:live|hang:live|select-failed:live|valid-statement-refused:live)',
+    claim='pending', note='pending', rule='')
+PROPS['C02'] = dict(lean=['Mkdb.Props.C02'], facts=STORE_FACTS, runs=[dict(cmd='db', proto='db', args=['c02'])],
+    sig_filter=r'db:(contents-differ:after-recovery|recovery-failed:.*|valid-statement-refused:after-recovery|row-id:after-recovery|row-ids-not-increasing:after-recovery|schema-differs:after-recovery|panic:after-recovery|hang:after-recovery|select-failed:after-recovery)',
+    claim='pending', note='pending', rule='')
+PROPS['C11'] = dict(lean=['Mkdb.Props.C11'], facts=STORE_FACTS, runs=[dict(cmd='db', proto='db', args=['c01'], corpus='C11')],
+    sig_filter=r'db:shape:.*', claim='pending', note='pending', rule='')
+PROPS['C14'] = dict(lean=['Mkdb.Props.C14'], facts=STORE_FACTS, runs=[dict(cmd='db', proto='db', args=['c14'])],
+    sig_filter=r'db:(failed-statement-changed-table|invalid-statement-accepted)', claim='pending', note='pending', rule='')
